@@ -184,7 +184,9 @@ fn run_hist(h: Hist, w: &mut Worker, ctx: &Ctx) {
             msg = m;
             (r, SignEntry::Bytes, if refuse { "refuse" } else { "accept" })
         } else if roll < h.mix[2] + h.mix[0] {
-            (libcall::sign_bytes(h.alg, &persisted, &msg, Cb::Refuse, aux), SignEntry::Bytes, "refuse")
+            // a refusing storage layer; half of the time one that would accept a second attempt
+            let how = if rng.below(2) == 0 { Cb::Refuse } else { Cb::FailOnce };
+            (libcall::sign_bytes(h.alg, &persisted, &msg, how, aux), SignEntry::Bytes, "refuse")
         } else if roll < h.mix[2] + h.mix[0] + h.mix[1] {
             // the storage layer crashes inside the callback
             let r = crate::libcall::sign_bytes_crashing(h.alg, &persisted, &msg);
@@ -200,7 +202,7 @@ fn run_hist(h: Hist, w: &mut Worker, ctx: &Ctx) {
         match &rec.result {
             Out::Ok(sig) => {
                 if script != "accept" {
-                    w.report.violation(&hist_key("released_without_persist"), &format!("a signature was released although the key update was {script}d"), witness(&log, &persisted));
+                    w.report.violation(&hist_key("released_without_persist"), &format!("a signature was released although the key update was {script}d (callback invocations: {})", rec.cb_args.len()), witness(&log, &persisted));
                 }
                 released += 1;
                 released_total += 1;
@@ -230,8 +232,9 @@ fn run_hist(h: Hist, w: &mut Worker, ctx: &Ctx) {
                     ),
                 }
                 // persisted successor
+                // what the caller's storage holds now: the last key its callback was handed
                 let next = match entry {
-                    SignEntry::Bytes => rec.cb_args.first().cloned(),
+                    SignEntry::Bytes => rec.cb_args.last().cloned(),
                     _ => rec.key_after.clone(),
                 };
                 match next {
@@ -254,6 +257,9 @@ fn run_hist(h: Hist, w: &mut Worker, ctx: &Ctx) {
                 last_msg = msg;
             }
             Out::Err | Out::Panic(_) => {
+                if rec.cb_args.len() > 1 {
+                    w.report.violation(&hist_key("callback_retried"), &format!("the update callback was invoked {} times in one failing call", rec.cb_args.len()), witness(&log, &persisted));
+                }
                 failed_attempts += 1;
                 log.push(format!("failed({script})@{counter_before}"));
                 if script == "accept" {
